@@ -458,6 +458,8 @@ def drv_errors(case):
     errs = m.errors()
     out = [{"op": "errors", "model": proj.node(m, tok), "errs": sorted({str(getattr(x, "value", x)) for x in errs}),
             "after": proj.node(m, tok)}]
+    if "recipe" in case and case.get("via", "ctor") == "ctor":
+        out[0]["recipe"] = B.recipe_tokens(case["recipe"], tok)
     if case.get("k", 0) % 4 == 0 or case.get("src") == "handmade":
         errs2 = m.errors()                 # validation of an already validated object
         out.append({"op": "errors", "model": proj.node(m, tok), "errs": sorted({str(getattr(x, "value", x)) for x in errs2}),
@@ -1428,7 +1430,12 @@ def _abs_call(obj, op, d, rule, tok, case):
     """performs one public call on obj; returns (abstract result JSON-able, new object or None)"""
     import puan, puan.logic.plog as pg
     from . import solvers
-    D = {k: (tuple(v) if v[0] != v[1] else int(v[0])) for k, v in (d or {}).items()}
+    # value forms rotate: a constant as an integer, as a (v, v) tuple, as a Bounds object; proper ranges as tuple or Bounds
+    D = {}
+    for j, (k_, v) in enumerate(sorted((d or {}).items(), key=lambda kv: str(kv[0]))):
+        f = (len(d) + j) % 3
+        if v[0] != v[1]: D[k_] = tuple(v) if f else puan.Bounds(int(v[0]), int(v[1]))
+        else: D[k_] = int(v[0]) if f == 2 else ((int(v[0]), int(v[0])) if f == 0 else puan.Bounds(int(v[0]), int(v[0])))
     if op == "evaluate":
         return proj.bounds(obj.evaluate(dict(D))), None
     if op == "evaluate_all":
